@@ -52,6 +52,7 @@ def run(ctx):
                 "assigned to several properties and to the note data, None. non-trivial: a chart whose note data equals or is "
                 "identical with another value, or sits in the middle, or a metacharacter value; distinct by hash of the dump")
     objs_ = c01.make_objects(ctx, res, "ssc")
+    c01.edit_history_tie(ctx, res)
     reqs, metas = [], []
     for sf, origin, log in objs_:
         # the auto-detection clause: VERSION first, with every kind of value (also key-only and empty)
